@@ -122,8 +122,16 @@ def replay(prop, subs, path):
     sub = sub[0]
     ctx = engine.Ctx(prop, sub.name)
     pt = engine.unjson(rp['point'])
+    import signal
+    signal.signal(signal.SIGALRM, engine._alarm)
     try:
-        sub.run(ctx, pt)
+        signal.alarm(engine.POINT_TIMEOUT)
+        try:
+            sub.run(ctx, pt)
+        finally:
+            signal.alarm(0)
+    except engine.PointTimeout as e:
+        ctx.fail('%s/%s/point-timeout' % (prop, sub.name), 'the point completes', str(e))
     except Exception as e:
         import traceback
         ctx.fail('%s/%s/harness-exception/%s' % (prop, sub.name, type(e).__name__), 'no exception', traceback.format_exc(limit=6))
